@@ -1,6 +1,8 @@
 package PKGNAME
 
 import (
+	"fmt"
+
 	"github.com/wneessen/go-mail/log"
 )
 
@@ -33,6 +35,8 @@ func (l *hxLogger) add(r log.Log) {
 			rec.parts = append(rec.parts, []byte("<other>"))
 		}
 	}
+	// a custom logger may dump the whole record, whatever fields it has
+	rec.parts = append(rec.parts, []byte(fmt.Sprintf("%v", r)))
 	l.recs = append(l.recs, rec)
 }
 func (l *hxLogger) Debugf(r log.Log) { l.add(r) }
